@@ -99,7 +99,7 @@ def run_memlog(sc, chooser):
             want = SER[3] if d.get("message_type") == "eliot:traceback" else SER[int(d["message_type"][1])]
             if ser is not want:
                 pair = False
-    errors = [repr(t.error) for t in s.threads.values() if t.error]
+    errors = [repr(t.error) for t in s.threads.values() if t.error] + ([s.deadlock] if s.deadlock else [])
     return {"ev": s.log, "final": {"msgs": msgs, "tbs": [d["id"] for d in logger.tracebackMessages]},
             "pair_ok": pair, "errors": errors}, s.steps
 
@@ -177,7 +177,7 @@ def run_filedest(sc, chooser):
             ok = False
     return {"ev": pieces, "final": {"ids": sorted(ids), "wellformed": ok,
                                     "expected": sorted(i for v in sc["threads"].values() for i in v)},
-            "errors": [repr(t.error) for t in s.threads.values() if t.error]}, s.steps
+            "errors": [repr(t.error) for t in s.threads.values() if t.error] + ([s.deadlock] if s.deadlock else [])}, s.steps
 
 
 # ---------------------------------------------------------------------------------------
@@ -226,7 +226,42 @@ def run_handover(sc, chooser):
     s.run(chooser)
     for i in sc.get("post", []):
         send(i)
-    return {"ev": s.log, "dests": sc["dests"], "errors": [repr(t.error) for t in s.threads.values() if t.error]}, s.steps
+    return {"ev": s.log, "dests": sc["dests"], "errors": [repr(t.error) for t in s.threads.values() if t.error] + ([s.deadlock] if s.deadlock else [])}, s.steps
+
+
+def run_fanout(sc, chooser):
+    """Several threads log through one Destinations whose destinations fail on chosen messages."""
+    from eliot import log_message
+    s = S.Sched(("eliot/_output.py",))
+    _patch_locks(s)
+    D = Destinations()
+    Logger._destinations = D
+    fail = {int(k): set(v) for k, v in sc.get("fail", {}).items()}      # dest -> ids of application messages it fails on
+
+    def mk(d):
+        def dest(msg):
+            s.yield_point(("dest", d))
+            rep = msg.get("message_type") == "eliot:destination_failure"
+            key = "%s/%s" % (msg["task_uuid"], "/".join(map(str, msg["task_level"])))
+            raised = (not rep) and msg.get("id") in fail.get(d, ())
+            s.event(e="deliver", d=d, key=key, kind="report" if rep else "msg", raised=raised)
+            if raised:
+                raise RuntimeError("destination %d fails on message %s" % (d, msg.get("id")))
+        return dest
+
+    D.add(*[mk(d) for d in sc["dests"]])
+
+    def logger(ids):
+        def body():
+            for i in ids:
+                log_message(message_type="m", id=i)
+        return body
+
+    for name, ids in sorted(sc["threads"].items()):
+        s.spawn(name, logger(ids))
+    s.run(chooser)
+    return {"ev": s.log, "dests": sc["dests"], "sent": sum(len(v) for v in sc["threads"].values()),
+            "errors": [repr(t.error) for t in s.threads.values() if t.error] + ([s.deadlock] if s.deadlock else [])}, s.steps
 
 
 def run_once(sc, chooser):
@@ -275,7 +310,7 @@ def run_once(sc, chooser):
     keys = [(m["task_uuid"], tuple(m["task_level"])) for m in got]
     return {"ev": s.log, "f_calls": len(calls), "dup_levels": len(keys) - len(set(keys)),
             "remote_starts": sum(1 for m in got if m.get("action_type") == "eliot:remote_task" and m.get("action_status") == "started"),
-            "errors": [repr(t.error) for t in s.threads.values() if t.error]}, s.steps
+            "errors": [repr(t.error) for t in s.threads.values() if t.error] + ([s.deadlock] if s.deadlock else [])}, s.steps
 
 
 # ---------------------------------------------------------------------------------------
@@ -379,10 +414,10 @@ def run_writer(sc, chooser):
         s.spawn(name, producer(ids))
     s.spawn("M", manager)
     s.run(chooser)
-    return {"ev": s.log, "errors": [repr(t.error) for t in s.threads.values() if t.error]}, s.steps
+    return {"ev": s.log, "errors": [repr(t.error) for t in s.threads.values() if t.error] + ([s.deadlock] if s.deadlock else [])}, s.steps
 
 
-RUNNERS = {"writer": run_writer, "memlog": run_memlog, "filedest": run_filedest, "handover": run_handover, "once": run_once}
+RUNNERS = {"fanout": run_fanout, "writer": run_writer, "memlog": run_memlog, "filedest": run_filedest, "handover": run_handover, "once": run_once}
 
 
 def main():
